@@ -51,11 +51,17 @@ def _small(job):
                     over = dict(minibatch_size=mb, subsampling=sub)
                     fails, info = pipeline.judge_streaming(text, over)
                     if k <= 4 and not fails:
-                        # the same file through the real command line (argparse in outrank.__main__)
-                        f2, _ = pipeline.judge_streaming(text, dict(over, task='ranking'), via_cli=True)
+                        # the same file through the real command line (argparse in outrank.__main__), with relative paths
+                        f2, _ = pipeline.judge_streaming(text, dict(over, task='ranking'), via_cli=True, relative=True)
                         st.count('evaluations')
                         st.count('cli_runs')
-                        fails = [(dict(sig, via_cli=True), 'via the command line: ' + msg) for sig, msg in f2]
+                        fails = [(dict(sig, via_cli=True), 'via the command line with relative paths: ' + msg) for sig, msg in f2]
+                    if k <= 4 and not fails and text.endswith('\n'):
+                        # the same file without the final line terminator
+                        f3, _ = pipeline.judge_streaming(text[:-1], over)
+                        st.count('evaluations')
+                        st.count('no_trailing_newline_runs')
+                        fails = [(dict(sig, no_final_newline=True), 'file without a final newline: ' + msg) for sig, msg in f3]
                     st.count('evaluations')
                     st.count('traces_validated')
                     st.count('transitions', k)
